@@ -2,7 +2,14 @@
 
  (a) the repository's generator is re-run in a scratch copy (generate_protocols.py + nintendo/files/proto, empty
      output directories, outside /repo and /verif) and every produced module/page is byte-compared with the
-     working tree — exhaustive over the finite set of programs;
+     working tree — exhaustive over the finite set of programs; the set of files THIS run wrote is checked from the
+     definitions' side (every definition: its module and its page were written, nothing else was; kernel-checked
+     bijection on the written names), the exit status is not trusted;
+ (a") the same run "in place": a copy of both output directories in which every expected output holds a sentinel —
+     afterwards the directories must equal the working tree file for file (no stale output survives a regeneration,
+     no hand-written file is touched);
+ (a"') exit status is faithful: with one definition damaged (cut short, illegal character, unknown parent / import /
+     type, undecodable bytes) a run that reports success must still have written both outputs of every definition;
  (b) inventory bijection, kernel-checked on Nat-coded name lists collected from the working tree: every
      definition has its module and page, every *generated* module (generator's header comment) and every
      *generated* page ("generated automatically from" sentence) has its definition — the generator never
@@ -29,6 +36,67 @@ def first_diff(a, b):
         "<end of file>" if len(lb) <= len(la) else lb[len(la)][:200].decode("utf8", "replace")
 
 
+SENTINEL = b"@@ C12 sentinel: stale content that a regeneration must overwrite @@\n"
+NOISE = re.compile(r"^(Parsing|Importing) \S+\.proto$")
+COMPLAINT = re.compile(r"(?i)error|exception|traceback|fail|skip|warn|invalid|unexpected|unknown|cannot|could not")
+FAULTS = ("cut", "char", "parent", "import", "type", "bytes", "brace")
+
+
+def scratch_tree(repo, g, protodir):
+    os.makedirs(os.path.join(g, "nintendo/files")); os.makedirs(os.path.join(g, "nintendo/nex")); os.makedirs(os.path.join(g, "docs/reference/nex"))
+    shutil.copy(os.path.join(repo, "generate_protocols.py"), g)
+    shutil.copytree(protodir, os.path.join(g, "nintendo/files/proto"))
+
+
+def run_generator(g, script="generate_protocols.py", *args):
+    try:
+        return subprocess.run([vf.PY, "-W", "ignore", script] + list(args), cwd=g, stdout=subprocess.PIPE, stderr=subprocess.STDOUT, text=True, errors="replace", timeout=600)
+    except subprocess.TimeoutExpired as e:
+        out = e.stdout if isinstance(e.stdout, str) else (e.stdout or b"").decode("utf8", "replace")
+        return subprocess.CompletedProcess(e.cmd, -9, stdout=out[-2000:] + "\n(the generator did not end within 600 s)")
+
+
+def log_about(log, name):
+    """lines of the generator's log that are not its ordinary progress lines: those naming the definition, then those that read like a complaint"""
+    odd = [l.strip() for l in log.splitlines() if l.strip() and not NOISE.match(l.strip())]
+    return [l for l in odd if name in l] + [l for l in odd if name not in l and COMPLAINT.search(l)]
+
+
+def damage(rng, text, kind):
+    """one realistic mistake in a definition file; returns (bytes, description) or None if the file offers no site"""
+    if kind == "cut":          # file cut short (interrupted write)
+        at = rng.randrange(len(text) // 5, max(len(text) * 4 // 5, len(text) // 5 + 1))
+        return text[:at].encode(), "cut short after %d of %d characters" % (at, len(text))
+    if kind == "char":         # a character the tokenizer does not know
+        sites = [m.start() for m in re.finditer(r"[;{(]", text)]
+        if not sites: return None
+        at = rng.choice(sites); ch = rng.choice("$`@~?")
+        return (text[:at] + ch + text[at:]).encode(), "character %r inserted at offset %d" % (ch, at)
+    if kind == "brace":        # a closing brace too many / too few
+        sites = [m.start() for m in re.finditer(r"\}", text)]
+        if not sites: return None
+        at = rng.choice(sites)
+        if rng.random() < 0.5:
+            return (text[:at] + text[at + 1:]).encode(), "closing brace at offset %d removed" % at
+        return (text[:at] + "}" + text[at:]).encode(), "closing brace at offset %d doubled" % at
+    if kind == "parent":       # protocol inherits from a protocol nobody defines
+        ms = list(re.finditer(r"(?m)^(\s*protocol\s+\w+\s*:\s*)([A-Za-z_]\w*)", text))
+        if not ms: return None
+        m = rng.choice(ms)
+        return (text[:m.start(2)] + "NoSuchProtocol" + text[m.end(2):]).encode(), "protocol at offset %d now inherits from NoSuchProtocol (was %s)" % (m.start(), m.group(2))
+    if kind == "import":       # import of a definition file that does not exist
+        return ("import no_such_definition;\n" + text).encode(), "'import no_such_definition;' prepended"
+    if kind == "type":         # a field of a type nobody defines
+        ms = list(re.finditer(r"(?m)^(\s+)(\w+)(\s+\w+\s*(?:=[^;\n]*)?;)", text))
+        if not ms: return None
+        m = rng.choice(ms)
+        return (text[:m.start(2)] + "NoSuchType" + text[m.end(2):]).encode(), "field at offset %d now has type NoSuchType (was %s)" % (m.start(2), m.group(2))
+    if kind == "bytes":        # bytes that are not UTF-8
+        at = rng.randrange(len(text) + 1)
+        return text[:at].encode() + b"\xff\xfe" + text[at:].encode(), "bytes ff fe inserted at character offset %d" % at
+    raise ValueError(kind)
+
+
 def run(ctx):
     repo = vf.REPO
     protodir = os.path.join(repo, "nintendo/files/proto")
@@ -37,22 +105,58 @@ def run(ctx):
     protos = sorted(f[:-6] for f in os.listdir(protodir) if f.endswith(".proto"))
     stray = sorted(f for f in os.listdir(protodir) if not f.endswith(".proto"))
     ctx.rule = ("programs = the generated module and the generated page of every definition file (2 per .proto): the repository's generator is re-run "
-                "in a scratch copy and each output is byte-compared with the working tree (exhaustive), and re-run with the directory of definitions listed in sorted, reversed and shuffled order (same bytes required); plus kernel-checked obligations: inventory bijection "
+                "in a scratch copy and each output is byte-compared with the working tree (exhaustive), and re-run with the directory of definitions listed in sorted, reversed and shuffled order (same bytes required); the files that one run wrote into empty output directories are checked from the definitions' side (each definition: module and page written by this run, nothing else written; exit status not trusted), "
+                "the generator is run in place over sentinels (no stale output may survive, no other file may change) and with one damaged definition per run (exit status 0 must mean that every definition got both outputs); plus kernel-checked obligations: inventory bijection "
                 "(definitions <-> generated modules <-> generated pages) and S_py = S_proto (tables recovered by ast from each checked-in module). "
                 "distinct non-trivial = files compared byte for byte that are non-empty")
     # ---------------- (a) re-generation
     gen = os.path.join(ctx.scratch, "regen")
-    os.makedirs(os.path.join(gen, "nintendo/files"))
-    os.makedirs(os.path.join(gen, "nintendo/nex"))
-    os.makedirs(os.path.join(gen, "docs/reference/nex"))
-    shutil.copy(os.path.join(repo, "generate_protocols.py"), gen)
-    shutil.copytree(protodir, os.path.join(gen, "nintendo/files/proto"))
-    p = subprocess.run([vf.PY, "-W", "ignore", "generate_protocols.py"], cwd=gen, stdout=subprocess.PIPE, stderr=subprocess.STDOUT, text=True, timeout=600)
+    scratch_tree(repo, gen, protodir)
+    p = run_generator(gen)
     produced_m = sorted(os.listdir(os.path.join(gen, "nintendo/nex")))
     produced_d = sorted(os.listdir(os.path.join(gen, "docs/reference/nex")))
     if p.returncode != 0:
         ctx.violation("regen:generator-fails", "generate_protocols.py fails on the working tree's definitions: %s" % p.stdout[-400:].strip(),
                       {"output": p.stdout[-3000:], "how": "copy generate_protocols.py and nintendo/files/proto to an empty directory with nintendo/nex and docs/reference/nex, run it"})
+    # ---------------- (a0) the set of files this run wrote, from the definitions' side: the output directories were empty, so
+    # whatever is there now was written by this run. Every definition must have its module and its page among them and nothing
+    # else may be there; the exit status and the log are reported, not trusted.
+    HOW0 = ("copy generate_protocols.py and nintendo/files/proto to an empty directory with EMPTY nintendo/nex and docs/reference/nex, run it, "
+            "then list what it wrote (in place the checked-in files would stand in for what the generator no longer writes)")
+    written = {"nintendo/nex": (".py", produced_m), "docs/reference/nex": (".md", produced_d)}
+    for sub, (ext, files) in written.items():
+        for n in protos:
+            rel = "%s/%s%s" % (sub, n, ext)
+            okw = n + ext in files
+            ctx.case(key="written:" + rel, nontrivial=True, tag="written:" + ("yes" if okw else "NO"))
+            if not okw and p.returncode == 0:
+                about = log_about(p.stdout, n)
+                ctx.violation("regen:unwritten:" + rel, "the generator (exit status 0) run on the working tree's definitions writes no %s for definition %s.proto: the checked-in %s is not the output of any "
+                              "generator run%s" % (rel, n, rel, ("; its log says: %s" % about[0][:200]) if about else ""),
+                              {"definition": n + ".proto", "missing_output": rel, "exit_status": p.returncode, "log_lines": about[:20], "written_modules": produced_m, "written_pages": produced_d, "how": HOW0})
+        for f in files:
+            if not (f.endswith(ext) and f[:-len(ext)] in protos):
+                ctx.violation("regen:%s/%s" % (sub, f), "the generator writes %s/%s, which belongs to no definition file in nintendo/files/proto" % (sub, f),
+                              {"output": sub + "/" + f, "definitions": protos, "how": HOW0})
+    lst = lambda l: "[" + ", ".join(map(str, l)) + "]"
+    cs = lambda l: ",".join(map(str, l)) if l else "-"
+    stems = lambda files, ext: [code(f[:-len(ext)] if f.endswith(ext) else f) for f in files]
+    P0, M0, D0 = [code(x) for x in protos], stems(produced_m, ".py"), stems(produced_d, ".md")
+    wok, wout = ctx.lean_check("WrittenInventory", "\n".join([
+        "import NxProofs.SchemaInventory", "open Nx.Schema.Inv",
+        "-- names of the files one generator run wrote into empty output directories (harness/corr_C12.py)",
+        "def protos : List Nat := " + lst(P0), "def writtenModules : List Nat := " + lst(M0), "def writtenPages : List Nat := " + lst(D0),
+        "theorem written : inventoryOK protos writtenModules writtenPages = true := by decide +kernel",
+        "theorem complete : (∀ x ∈ protos, x ∈ writtenModules ∧ x ∈ writtenPages) ∧ (∀ x, x ∈ writtenModules ∨ x ∈ writtenPages → x ∈ protos) := run_complete _ _ _ written"]) + "\n")
+    ctx.obligation(wok); ctx.obligation(wok)
+    winv = ctx.driver().batch(["inv %s %s %s" % (cs(P0), cs(M0), cs(D0))])[0]
+    w_expected = p.returncode == 0 and not any(v[0].startswith("regen:") for v in ctx.violations)
+    ctx.extra["written_by_one_run"] = {"definitions": len(P0), "modules": len(M0), "pages": len(D0), "exit_status": p.returncode, "kernel": wok, "model": winv.split("|")[0].strip()}
+    if (winv.split("|")[0].strip() == "ok 1") != wok:
+        ctx.corr_break("written-kernel-vs-driver", "kernel says %s, compiled checker says %s" % (wok, winv), {"lean_output": wout[-800:]})
+    elif wok != w_expected and p.returncode == 0:
+        ctx.corr_break("written-inventory", "the written-set obligation is %s but the per-definition comparison found %s" % (wok, "nothing" if w_expected else "missing/undefined outputs"),
+                       {"driver": winv, "lean_output": wout[-800:]})
     ndiff = 0
     for sub, tree_dir, files in (("nintendo/nex", moddir, produced_m), ("docs/reference/nex", pagedir, produced_d)):
         for f in files:
@@ -90,14 +194,46 @@ def run(ctx):
             "runpy.run_path('generate_protocols.py', run_name='__main__')\n")
     def regen_in_order(order):
         g = os.path.join(ctx.scratch, "regen_" + order.replace(":", "_"))
-        os.makedirs(os.path.join(g, "nintendo/files")); os.makedirs(os.path.join(g, "nintendo/nex")); os.makedirs(os.path.join(g, "docs/reference/nex"))
+        scratch_tree(repo, g, protodir)
+        open(os.path.join(g, "_ordered.py"), "w").write(WRAP)
+        return order, g, run_generator(g, "_ordered.py", order)
+    # ---------------- (a") in place: both output directories as they are in the working tree (hand-written files included), every
+    # expected output replaced by a sentinel. After the run the directories must equal the working tree file for file.
+    skip = lambda f: f == "__pycache__" or f.endswith((".pyc", ".pyo"))
+    def regen_in_place(_):
+        g = os.path.join(ctx.scratch, "regen_inplace")
+        os.makedirs(os.path.join(g, "nintendo/files"))
         shutil.copy(os.path.join(repo, "generate_protocols.py"), g)
         shutil.copytree(protodir, os.path.join(g, "nintendo/files/proto"))
-        open(os.path.join(g, "_ordered.py"), "w").write(WRAP)
-        q = subprocess.run([vf.PY, "-W", "ignore", "_ordered.py", order], cwd=g, stdout=subprocess.PIPE, stderr=subprocess.STDOUT, text=True, timeout=600)
-        return order, g, q
-    with concurrent.futures.ThreadPoolExecutor(max_workers=6) as ex:
-        for order, g, q in ex.map(regen_in_order, orders):
+        for sub, tree_dir, ext in (("nintendo/nex", moddir, ".py"), ("docs/reference/nex", pagedir, ".md")):
+            shutil.copytree(tree_dir, os.path.join(g, sub), ignore=lambda d, fs: [f for f in fs if skip(f)])
+            for n in protos:
+                open(os.path.join(g, sub, n + ext), "wb").write(SENTINEL)
+        return g, run_generator(g)
+    # ---------------- (a"') exit status: one definition damaged per run (empty output directories)
+    nfault = 6 if ctx.tier == "quick" else 96
+    kinds = list(FAULTS); ctx.rng.shuffle(kinds)
+    plan = []
+    for i in range(nfault):
+        kind = kinds[i % len(kinds)]
+        for _ in range(200):
+            n = ctx.rng.choice(protos)
+            try: text = open(os.path.join(protodir, n + ".proto"), encoding="utf8").read()
+            except Exception: continue
+            d = damage(ctx.rng, text, kind) if text else None
+            if d: plan.append((i, n, kind, d[0], d[1])); break
+    def regen_damaged(item):
+        i, n, kind, data, desc = item
+        g = os.path.join(ctx.scratch, "regen_fault_%d" % i)
+        scratch_tree(repo, g, protodir)
+        open(os.path.join(g, "nintendo/files/proto", n + ".proto"), "wb").write(data)
+        q = run_generator(g)
+        return item, q, set(os.listdir(os.path.join(g, "nintendo/nex"))), set(os.listdir(os.path.join(g, "docs/reference/nex")))
+    with concurrent.futures.ThreadPoolExecutor(max_workers=12) as ex:
+        f_orders = ex.map(regen_in_order, orders)
+        f_place = ex.submit(regen_in_place, None)
+        f_faults = ex.map(regen_damaged, plan)
+        for order, g, q in f_orders:
             if q.returncode != 0:
                 if p.returncode == 0:
                     ctx.violation("regen:order:" + order.split(":")[0], "generate_protocols.py fails when the definitions are listed in %s order: %s" % (order, q.stdout[-300:].strip()),
@@ -115,6 +251,58 @@ def run(ctx):
                                       "(%s order vs file-system order; first difference at line %d: %r / %r)" % (sub, f, order, ln, x[:80], y[:80]),
                                       {"file": sub + "/" + f, "order": order, "line": ln,
                                        "how": "run generate_protocols.py with os.listdir returning the definitions in the given order (harness/corr_C12.py regen_in_order)"})
+        # ---- in place
+        g, q = f_place.result()
+        HOW1 = ("copy generate_protocols.py, nintendo/files/proto, nintendo/nex and docs/reference/nex to a scratch directory, overwrite <name>.py and <name>.md of every "
+                "definition with a sentinel line, run the generator there, compare both directories with the working tree")
+        stale = 0
+        if q.returncode != 0 and p.returncode == 0:
+            ctx.violation("regen:inplace:generator-fails", "generate_protocols.py succeeds with empty output directories but fails when the outputs already exist: %s" % q.stdout[-300:].strip(),
+                          {"output": q.stdout[-3000:], "how": HOW1})
+        elif q.returncode == 0:
+            for sub, tree_dir, ext in (("nintendo/nex", moddir, ".py"), ("docs/reference/nex", pagedir, ".md")):
+                want = sorted(f for f in os.listdir(tree_dir) if not skip(f) and os.path.isfile(os.path.join(tree_dir, f)))
+                got = sorted(f for f in os.listdir(os.path.join(g, sub)) if not skip(f) and os.path.isfile(os.path.join(g, sub, f)))
+                for f in sorted(set(want) | set(got)):
+                    rel = sub + "/" + f
+                    a = open(os.path.join(tree_dir, f), "rb").read() if f in want else None
+                    b = open(os.path.join(g, sub, f), "rb").read() if f in got else None
+                    expected_output = f.endswith(ext) and f[:-len(ext)] in protos
+                    tag = "same" if a == b else "STALE" if b == SENTINEL else "differs"
+                    ctx.case(key="inplace:" + rel, nontrivial=bool(b), tag="inplace:%s:%s" % ("output" if expected_output else "other", tag))
+                    if a == b:
+                        continue
+                    if b == SENTINEL:
+                        stale += 1
+                        about = log_about(q.stdout, f[:-len(ext)])
+                        ctx.violation("regen:unwritten:" + rel, "the generator (exit status 0) run where outputs already exist leaves %s untouched: stale content of that file survives a regeneration, "
+                                      "the checked-in %s is not what this generator writes for %s.proto%s" % (rel, rel, f[:-len(ext)], ("; its log says: %s" % about[0][:200]) if about else ""),
+                                      {"definition": f[:-len(ext)] + ".proto", "unwritten_output": rel, "exit_status": q.returncode, "log_lines": about[:20], "how": HOW1})
+                    elif expected_output:
+                        if not any(v[0] == "regen:" + rel for v in ctx.violations):
+                            ln, x, y = first_diff(a or b"", b or b"")
+                            ctx.violation("regen:inplace:" + rel, "%s as regenerated over existing outputs differs from the working tree at line %d: tree %r, generator %r (with empty output directories it does not)" % (rel, ln, x[:80], y[:80]),
+                                          {"file": rel, "line": ln, "working_tree": x, "generator": y, "how": HOW1})
+                    elif not any(v[0] == "regen:" + rel for v in ctx.violations):
+                        ctx.violation("regen:inplace:clobbers:" + rel, "the generator %s %s, which is not the module/page of any definition file" % ("creates" if a is None else "deletes" if b is None else "rewrites", rel),
+                                      {"file": rel, "definitions": protos, "how": HOW1})
+        ctx.extra["in_place_run"] = {"exit_status": q.returncode, "sentinels_left": stale}
+        # ---- damaged definitions
+        fault_tags = {}
+        for (i, n, kind, data, desc), q, wm, wd in f_faults:
+            # outputs the undamaged run wrote and this one did not
+            lacking = sorted(["nintendo/nex/" + f for f in produced_m if f not in wm] + ["docs/reference/nex/" + f for f in produced_d if f not in wd])
+            outcome = "refused" if q.returncode != 0 else "tolerated" if not lacking else "SILENT"
+            fault_tags[kind + ":" + outcome] = fault_tags.get(kind + ":" + outcome, 0) + 1
+            ctx.case(key=("fault", n, kind, desc), nontrivial=True, tag="fault:%s:%s" % (kind, outcome))
+            if outcome == "SILENT" and p.returncode == 0:
+                about = log_about(q.stdout, n)
+                ctx.violation("regen:exit-status", "with %s.proto damaged (%s) the generator ends with exit status 0 although it wrote no %s (%d of the %d outputs it writes for the undamaged definitions are missing): a run that reports success "
+                              "does not mean that every definition has its generated files%s" % (n, desc, lacking[0], len(lacking), len(produced_m) + len(produced_d), ("; its log says: %s" % about[0][:200]) if about else ""),
+                              {"definition": n + ".proto", "damage": kind, "description": desc, "damaged_text": data.decode("utf8", "backslashreplace"), "exit_status": q.returncode,
+                               "outputs_not_written": lacking, "log_lines": about[:20],
+                               "how": "copy generate_protocols.py and nintendo/files/proto to an empty directory with empty nintendo/nex and docs/reference/nex, replace the definition by damaged_text, run the generator, look at exit status and written files"})
+        ctx.extra["damaged_definition_runs"] = fault_tags
     ctx.programs = len(produced_m) + len(produced_d)
     ctx.exhaustive = True
     ctx.extra["listing_orders"] = orders
